@@ -2,36 +2,95 @@
    Note kinds: fresh (notified later by a notifier thread), already notified, expiring (own deadline), child of an
    expiring parent.  Waits: nsync_cv_wait_with_deadline (nobody signals) and nsync_mu_wait_with_deadline on a
    never-true condition, in reader and writer mode, with a deadline that is none / before / after the cancellation.
-   Oracles: result ECANCELED only with the note notified, ETIMEDOUT only at/after the deadline, lock held in the
-   caller's mode on return; once the note is notified the call needs no further wake-up: a wait without deadline must
-   return (stuck detector), and a wait must not report ETIMEDOUT when the notification had completed before its deadline. */
+   Oracles: result ECANCELED only with the note notified (= nsync_note_notify has been called on it or its parent, or its
+   expiry time has been reached on the virtual clock; the scenario's own record, not nsync_note_is_notified), ETIMEDOUT only
+   at/after the deadline, lock held in the caller's mode on return; once the deadline has passed or the note is notified the
+   call needs no further wake-up: a wait without deadline must return (stuck detector), a wait must not report ETIMEDOUT when
+   the notification had completed before its deadline, and whenever the notifier thread runs while everybody else is asleep
+   or finished, no waiter may be asleep inside a wait whose deadline has passed / whose note has expired or been notified
+   (observe ()).  Expiring notes (kinds 2, 3) are notified explicitly only in half of the runs (VRT_OMIT). */
 #include "nsync.h"
 #include "vrt.h"
 #include <stdio.h>
 #include <errno.h>
 #include <stdint.h>
+#include <limits.h>
+#include <unistd.h>
+#include <sys/syscall.h>
+#include <linux/futex.h>
 
 static nsync_mu mu;
 static nsync_cv cv;
 static nsync_note parent_note, note;
 static int kind;                     /* 0 fresh, 1 already notified, 2 expiring, 3 child of expiring parent */
+static int omit_notify;              /* kinds 2, 3: nobody calls nsync_note_notify, the note's expiry is the only cancellation */
+static int64_t note_expiry_ns = INT64_MAX;   /* the time at which the note becomes notified by itself */
 #define NOTIFY_DONE_AT 9             /* shadow: virtual time at which the cancellation was complete (0 = not yet) */
+#define NOTIFY_STARTED_AT 10         /* shadow: virtual time just BEFORE nsync_note_notify was called (0 = not yet): the scenario's
+                                        own record; ECANCELED is judged against it and the clock, not against the library's answer */
+#define IN_WAIT(i) (20 + (i))        /* shadow: waiter i is inside its wait call */
+#define DL_OF(i) (24 + (i))          /* shadow: its deadline (ns), INT64_MAX if none */
+static int nwaiters, wtid[2], n_tids, tids[6];
 static int64_t ts_ns (nsync_time t) { return (int64_t) t.tv_sec * 1000000000LL + t.tv_nsec; }
 static int never (const void *v) { return 0; }
 
+/* scenario-level sleep on a private futex word (not through the library under test): the thread has a pending deadline, so
+   when everybody else is asleep the virtual clock jumps to it and it looks at a quiescent world */
+#define NOSAN __attribute__ ((no_sanitize ("thread")))
+static uint32_t nap_word;
+NOSAN static void nap_until (int64_t abs_ns) {
+	struct timespec ts;
+	ts.tv_sec = abs_ns / 1000000000LL; ts.tv_nsec = abs_ns % 1000000000LL;
+	while (vrt_now_ns () < abs_ns)
+		syscall (SYS_futex, &nap_word, (long) (FUTEX_WAIT_BITSET | FUTEX_PRIVATE_FLAG | FUTEX_CLOCK_REALTIME), 0L, &ts, NULL, -1L);
+}
+static int others_quiet (void) {      /* every other thread is asleep or has finished: nobody holds the mutex, nobody will wake anybody */
+	int i;
+	for (i = 0; i < n_tids; i++)
+		if (tids[i] != vrt_self () && !vrt_is_blocked (tids[i]) && !vrt_is_finished (tids[i])) return 0;
+	return 1;
+}
+/* the note counts as notified once somebody has called nsync_note_notify on it (or on its parent) or its expiry time is reached */
+static int shadow_notified (void) { return vrt_sh_get (NOTIFY_STARTED_AT) != 0 || vrt_now_ns () >= note_expiry_ns; }
+
+/* C05 "once the deadline has passed or the note is notified the call needs no further wake-up: it returns as soon as the mutex
+   can be re-acquired".  Looked at from a thread that runs while every other thread is asleep or finished: the mutex is free and
+   stays free, no wake-up is on its way (the modelled futex makes a sleeper runnable the moment its own timeout is reached), so a
+   waiter that is asleep inside its wait although its deadline has passed / the note has expired / the notification has completed
+   will not return without a FURTHER wake-up.  (A waiter that is merely runnable and has not been scheduled is never judged.) */
+static void observe (void) {
+	int i;
+	int64_t now = vrt_now_ns ();
+	long done = vrt_sh_get (NOTIFY_DONE_AT);
+	if (!others_quiet ()) return;
+	vrt_count ("observed_quiet");
+	for (i = 0; i < nwaiters; i++) {
+		int64_t dl = (int64_t) vrt_sh_get (DL_OF (i));
+		if (!vrt_sh_get (IN_WAIT (i)) || !vrt_is_blocked (wtid[i])) continue;
+		if (dl < now) vrt_fail ("C05", "waiter %d is asleep in its wait at %lld although its deadline %lld has passed and the mutex is free: it needs a further wake-up", i, (long long) now, (long long) dl);
+		if (note_expiry_ns < now) vrt_fail ("C05", "waiter %d is asleep in its wait at %lld although the note expired at %lld and the mutex is free: it needs a further wake-up", i, (long long) now, (long long) note_expiry_ns);
+		if (done != 0) vrt_fail ("C05", "waiter %d is asleep in its wait at %lld although the notification of its note completed at %ld and the mutex is free: it needs a further wake-up", i, (long long) now, done);
+	}
+}
+
 static void waiter (void *a) {
+	int me = (int) (long) a;
 	int use_mu_wait = (int) vrt_rand (2), writer = (int) vrt_rand (2), dk = (int) vrt_rand (3), r;
 	nsync_time dl = dk == 0 ? nsync_time_no_deadline : vrt_abs (dk == 1 ? 600 : 4000);
 	int64_t dl_ns = dk == 0 ? INT64_MAX : ts_ns (dl);
 	if (writer) nsync_mu_lock (&mu); else nsync_mu_rlock (&mu);
 	vrt_acquired (&mu, writer);
+	vrt_sh_set (DL_OF (me), (long) dl_ns); vrt_sh_set (IN_WAIT (me), 1);
 	vrt_releasing (&mu, writer);
 	if (use_mu_wait) r = nsync_mu_wait_with_deadline (&mu, never, NULL, NULL, dl, note);
 	else { r = 0; while (r == 0) r = nsync_cv_wait_with_deadline (&cv, &mu, dl, note); }
+	vrt_sh_set (IN_WAIT (me), 0);
 	vrt_acquired (&mu, writer);
 	if (r == ECANCELED) {
 		vrt_count ("ret_cancel");
-		if (!nsync_note_is_notified (note)) vrt_fail ("C05", "ECANCELED but the note is not notified");
+		if (!shadow_notified ())
+			vrt_fail ("C05", "ECANCELED at %lld, but nobody has called nsync_note_notify and the note's expiry %lld has not been reached", (long long) vrt_now_ns (), (long long) note_expiry_ns);
+		if (vrt_sh_get (NOTIFY_STARTED_AT) == 0) vrt_count ("ret_cancel_by_expiry");
 	} else if (r == ETIMEDOUT) {
 		long done = vrt_sh_get (NOTIFY_DONE_AT);
 		vrt_count ("ret_timeout");
@@ -42,12 +101,31 @@ static void waiter (void *a) {
 	vrt_releasing (&mu, writer);
 	if (writer) nsync_mu_unlock (&mu); else nsync_mu_runlock (&mu);
 }
+static int all_waiters_finished (void) {
+	int i;
+	for (i = 0; i < nwaiters; i++) if (!vrt_is_finished (wtid[i])) return 0;
+	return 1;
+}
 static void notifier (void *a) {
 	int k, n = (int) vrt_rand (12);
-	for (k = 0; k < n; k++) vrt_point ("before-notify");
-	nsync_note_notify (kind == 3 && vrt_rand (2) ? parent_note : note);
-	if (nsync_note_is_notified (note)) vrt_sh_set (NOTIFY_DONE_AT, (long) vrt_now_ns ());
-	vrt_count ("notify");
+	/* either a few steps after the start (the notification lands anywhere inside the waiters' entry / sleep / timeout paths), or
+	   at a chosen time that may lie after the waits' deadline (600 / 4000) and after the note's expiry (1500): the clock gets
+	   there when everybody else sleeps, so the notifier then sees who is still asleep BEFORE it rescues them */
+	if (vrt_rand (3) == 0) nap_until (ts_ns (vrt_abs (300 + (int64_t) vrt_rand (10) * 500)));
+	else for (k = 0; k < n; k++) vrt_point ("before-notify");
+	observe ();
+	if (!omit_notify) {
+		vrt_sh_set (NOTIFY_STARTED_AT, (long) vrt_now_ns ());
+		nsync_note_notify (kind == 3 && vrt_rand (2) ? parent_note : note);
+		if (nsync_note_is_notified (note)) vrt_sh_set (NOTIFY_DONE_AT, (long) vrt_now_ns ());
+		vrt_count ("notify");
+	} else vrt_count ("notify_omitted");
+	/* keep looking until the waiters are done or every deadline and expiry lies in the past; whoever is still asleep then and is
+	   not reported by observe () is left to the stuck detector */
+	while (!all_waiters_finished () && vrt_now_ns () <= ts_ns (vrt_abs (4600))) {
+		nap_until (vrt_now_ns () + 450);
+		observe ();
+	}
 }
 static void bystander (void *a) {     /* keeps the mutex busy now and then, in both modes */
 	int k;
@@ -57,17 +135,21 @@ static void bystander (void *a) {     /* keeps the mutex busy now and then, in b
 	}
 }
 int main (void) {
-	int i, nw = 1 + (int) vrt_rand (2);
+	int i;
 	static char nm[4][8];
+	nwaiters = 1 + (int) vrt_rand (2);
 	kind = vrt_opt ("KIND", (int) vrt_rand (4));
 	vrt_register (&mu, sizeof (mu), "mu0");
 	if (kind == 3) { parent_note = nsync_note_new (NULL, vrt_abs (1500)); note = nsync_note_new (parent_note, nsync_time_no_deadline); }
 	else note = nsync_note_new (NULL, kind == 2 ? vrt_abs (1500) : nsync_time_no_deadline);
-	if (kind == 1) { nsync_note_notify (note); vrt_sh_set (NOTIFY_DONE_AT, 1); }
-	for (i = 0; i < nw; i++) { snprintf (nm[i], 8, "w%d", i); vrt_thread (nm[i], waiter, NULL); }
-	/* somebody always notifies eventually (expiring notes are also notified explicitly so that waits without deadline end) */
-	vrt_thread ("ntf", notifier, NULL);
-	if (vrt_rand (2)) vrt_thread ("by", bystander, NULL);
+	if (kind >= 2) note_expiry_ns = ts_ns (vrt_abs (1500));
+	if (kind == 1) { vrt_sh_set (NOTIFY_STARTED_AT, 1); nsync_note_notify (note); vrt_sh_set (NOTIFY_DONE_AT, 1); }
+	for (i = 0; i < nwaiters; i++) { snprintf (nm[i], 8, "w%d", i); wtid[i] = tids[n_tids++] = vrt_thread (nm[i], waiter, (void *) (long) i); }
+	/* fresh notes are always notified by the notifier thread; expiring notes and children of expiring parents are notified
+	   explicitly in half of the runs only: in the others the expiry is the only thing that can end a wait without deadline */
+	tids[n_tids++] = vrt_thread ("ntf", notifier, NULL);
+	if (vrt_rand (2)) tids[n_tids++] = vrt_thread ("by", bystander, NULL);
+	if (kind >= 2) omit_notify = vrt_opt ("OMIT", (int) vrt_rand (2));
 	vrt_run ();
 	printf ("VRT-END ok\n");
 	return 0;
